@@ -761,7 +761,14 @@ def _run(world: World, plan):
             user = rec['user']
             target = path_targets[rec['path']] if rec['path'] in path_targets else resolve(rec['path'])
             required = E.abort_reasons(cfg, user, target, req)
+            if pending_scans and E.NOT_SHARED in required:
+                # a scan was left running while the configuration changed: the reference index is only brought up to date
+                # by the next awaited scan, until then "not shared (any more)" cannot be told from "indexed by that scan"
+                world.probe('settle_not_shared_not_judged_scan_pending')
+                required = [r for r in required if r != E.NOT_SHARED]
             allowed = set(required)
+            if pending_scans:
+                allowed.add(E.NOT_SHARED)
             current = target is not None and index.owner_of(target) is not None and canonical(target) == rec['path']
             if not current:
                 allowed.add(E.NOT_SHARED)      # the reported path changed: may be kept or aborted
